@@ -87,6 +87,7 @@ def run_trajectory(spec, monitors, probes=("days",), partition=None, controller=
         res["states"] = sorted(hash(s) & 0xFFFFFFFF for s in states)
         res["ctx_state"] = {k: v for k, v in ctxbox["ctx"].state.items() if isinstance(v, (int, float))}
         res["node"] = node
+        res["ctx"] = ctxbox["ctx"]
     except CaseTimeout:
         raise
     except SimCrash:
@@ -96,6 +97,8 @@ def run_trajectory(spec, monitors, probes=("days",), partition=None, controller=
         res["reason"] = str(e)
     except Exception as e:  # noqa: BLE001
         kind_, sig = classify_exception(e)
+        if kind_ == "harness":
+            raise
         res["days"] = node.steps_done if node is not None else 0
         if kind_ == "permitted":
             res["status"] = "rejected"
@@ -110,5 +113,6 @@ def run_trajectory(spec, monitors, probes=("days",), partition=None, controller=
 def finish(res):
     """strip non-serialisable members before a result leaves the worker"""
     res.pop("node", None)
+    res.pop("ctx", None)
     res.pop("exc", None)
     return res
